@@ -11,7 +11,8 @@ package expr
 //@   property C13 C09
 //@   opt maprange deterministic
 //@   requires ut != nil
-//@   let att = ptr(*AttributeExpr, utAttrOf(ut))
+//@   let att = ptr(*AttributeExpr, old(select(utAttr, ut)))
+//@   requires select(utAttr, ut) > 0
 //@   ensures* shape.names.only: ignoreFields ==> result != nil && load(result) == userTypePrefix + utNameOf(ut)
 //@   ensures* shape.no.tags: !ignoreFields && ignoreTags ==> result != nil && load(result) == userTypePrefix + ite(!ignoreNames, utNameOf(ut), "") + userTypeHashPrefix + hashSpec(att.Type, ignoreFields, ignoreNames, ignoreTags)
 
@@ -53,15 +54,35 @@ package expr
 //@   modifies* nothing
 //@   frameprop C13
 
-// DupType is mutually recursive with DupAttribute and dispatches on every kind of type (user types through
-// interface methods). Its frame is ASSUMED here: it writes the dupper's memo tables, the list of generated
-// result types and objects it allocates, nothing that existed before.
+// DupType is mutually recursive with DupAttribute (by contract) and dispatches on every kind of type; user
+// types go through the UserType interface (abstract: identifier and attribute as ghost state).
+//@ func (*Object).Set
+//@   trusted
+//@   requires o != nil
+//@   modifies cell(o), elems(load(o)), each(load(o), Attribute)
+//@ func GeneratedResultType
+//@   trusted
+//@   modifies nothing
+
 //@ func (*dupper).DupType
 //@   trusted
+//@   opt verify callsites
+//@   property C13
 //@   requires d != nil && d.uts != nil && d.ats != nil
 //@   ensures memo: d.uts == old(d.uts) && d.ats == old(d.ats)
-//@   modifies* mapOf(d.uts), mapOf(d.ats), cell(GeneratedResultTypes), whole(elems(load(GeneratedResultTypes)))
+//@   ensures memo.grows: forall a *AttributeExpr :: old(inMap(d.ats, a)) ==> inMap(d.ats, a)
+//@   modifies* mapOf(d.uts), mapOf(d.ats), cell(GeneratedResultTypes), whole(elems(load(GeneratedResultTypes))), utAttr
 //@   frameprop C13
+//   -- the body is too entangled for a full proof (its contract is ASSUMED); what is checked on the real body is the
+//   -- discipline at its calls: a user type is cloned without an attribute, and only attributes produced by
+//   -- DupAttribute (fresh since this call, or already memoised by this dupper) are ever installed in a clone
+//@   callspec Dup params ut a
+//@       requires* clone.without.attribute: a == nil
+//@       ensures result != nil
+//@       modifies utAttr
+//@   callspec SetAttribute params ut a
+//@       requires* only.copied.attributes: sinceEntry(a) || inMap(d.ats, a)
+//@       modifies utAttr
 
 //@ func (*dupper).DupAttribute
 //@   property C13
@@ -73,7 +94,8 @@ package expr
 //@   ensures* fresh.meta: isNew && old(att.Meta) != nil ==> result.Meta != nil && fresh(result.Meta)
 //@   ensures* same.scalars: isNew ==> result.Description == old(att.Description) && result.finalized == old(att.finalized)
 //@   ensures memo: d.uts == old(d.uts) && d.ats == old(d.ats)
-//@   modifies* mapOf(d.uts), mapOf(d.ats), cell(GeneratedResultTypes), whole(elems(load(GeneratedResultTypes)))
+//@   ensures memo.grows: forall a *AttributeExpr :: old(inMap(d.ats, a)) ==> inMap(d.ats, a)
+//@   modifies* mapOf(d.uts), mapOf(d.ats), cell(GeneratedResultTypes), whole(elems(load(GeneratedResultTypes))), utAttr
 //@   frameprop C13
 
 // ---- security requirement inheritance (C06) -------------------------------------------------
@@ -109,7 +131,8 @@ package expr
 // children with the same flags, in the documented shape.
 //@ smt (declare-fun hashSpec (Iface Bool Bool Bool) String)
 //@ smt (declare-fun utNameOf (Iface) String)
-//@ smt (declare-fun utAttrOf (Iface) Int)
+//@ ghost var utAttr (Array Iface Int)
+//@ smt (declare-fun utIDOf (Iface) String)
 //@ func hash
 //@   trusted
 //@   ensures result != nil && load(result) == hashSpec(dt, ignoreFields, ignoreNames, ignoreTags)
@@ -123,7 +146,19 @@ package expr
 //@   ensures result == utNameOf(ut)
 //@ iface goa.design/goa/v3/expr.UserType.Attribute
 //@   params ut
-//@   ensures result == ptr(*AttributeExpr, utAttrOf(ut)) && result != nil && result <= alloc()
+//@   ensures result == ptr(*AttributeExpr, select(utAttr, ut)) && result <= alloc() && result >= 0
+//@ iface goa.design/goa/v3/expr.UserType.ID
+//@   params ut
+//@   ensures result == utIDOf(ut)
+//@ iface goa.design/goa/v3/expr.UserType.SetAttribute
+//@   params ut a
+//@   ensures utAttr == store(old(utAttr), ut, a)
+//@   modifies utAttr
+//@ iface goa.design/goa/v3/expr.UserType.Dup
+//@   params ut a
+//@   ensures ut.val != Empty ==> result != nil && fresh(result) && select(utAttr, result) == a && utIDOf(result) == utIDOf(ut) && (typeIs(ut, *ResultTypeExpr) == typeIs(result, *ResultTypeExpr)) && (typeIs(ut, *UserTypeExpr) == typeIs(result, *UserTypeExpr))
+//@   ensures forall x Iface :: x != result ==> select(utAttr, x) == old(select(utAttr, x))
+//@   modifies utAttr
 
 //@ func hashArray
 //@   property C13
